@@ -96,6 +96,11 @@ fn main() {
                 }
                 i += 1;
             }
+            if std::env::var("FQV_CHILD").is_err() {
+                std::process::exit(supervise(&prop, tier, &verif_dir));
+            }
+            report::trace_open(&std::env::var("FQV_TRACE").unwrap_or_default());
+            report::start_watchdog(prop.clone(), verif_dir.clone(), 90);
             let seed = std::env::var("VERIF_SEED").ok().and_then(|s| s.parse::<i64>().ok()).unwrap_or(0) as u64;
             let ctx = Ctx { prop, tier, seed, verif_dir };
             if let Err(e) = selfcheck::run(false) {
@@ -115,4 +120,81 @@ fn main() {
         }
         _ => usage(),
     }
+}
+
+/// The supervising parent: runs the check in a child process so that an abort (stack overflow,
+/// allocation failure, double panic) of the subject is attributed instead of killing the verdict.
+fn supervise(prop: &str, tier: Tier, verif_dir: &str) -> i32 {
+    let exe = match std::env::current_exe() {
+        Ok(e) => e,
+        Err(e) => {
+            eprintln!("MACHINERY: {}", e);
+            return 2;
+        }
+    };
+    let _ = std::fs::create_dir_all(format!("{}/scratch", verif_dir));
+    let run = |threads: Option<&str>| -> (Option<i32>, Vec<String>) {
+        let trace = format!("{}/scratch/trace-{}-{}.txt", verif_dir, prop, std::process::id());
+        let mut cmd = std::process::Command::new(&exe);
+        cmd.arg("check").arg(prop).arg("--tier").arg(tier.name());
+        cmd.env("FQV_CHILD", "1").env("FQV_TRACE", &trace);
+        if let Some(t) = threads {
+            cmd.env("FQV_THREADS", t);
+        }
+        let limit = std::time::Duration::from_secs(if tier.thorough() { 8 * 3600 } else { 40 * 60 });
+        let t0 = std::time::Instant::now();
+        let mut child = match cmd.spawn() {
+            Ok(c) => c,
+            Err(e) => {
+                eprintln!("MACHINERY: cannot start the check process: {}", e);
+                return (Some(2), vec![]);
+            }
+        };
+        let code = loop {
+            match child.try_wait() {
+                Ok(Some(st)) => break st.code(),
+                Ok(None) => {
+                    if t0.elapsed() > limit {
+                        let _ = child.kill();
+                        let _ = child.wait();
+                        eprintln!("MACHINERY: check exceeded its wall-clock limit of {:?} and was stopped (not a verdict)", limit);
+                        let _ = std::fs::remove_file(&trace);
+                        return (Some(2), vec![]);
+                    }
+                    std::thread::sleep(std::time::Duration::from_millis(50));
+                }
+                Err(_) => break None,
+            }
+        };
+        let inflight = report::trace_read(&trace);
+        let _ = std::fs::remove_file(&trace);
+        (code, inflight)
+    };
+    let (code, inflight) = run(None);
+    if let Some(c) = code {
+        if c == 0 || c == 1 || c == 2 {
+            return c;
+        }
+    }
+    // the child died: abort, signal, or a panic of the harness itself
+    eprintln!("check process died (status {:?}); cases in flight: {:?}", code, inflight);
+    eprintln!("re-running single-threaded to attribute the abort to one case ...");
+    let (code2, inflight2) = run(Some("1"));
+    let aborting_props = ["C05", "C10", "C17", "C19", "C09"];
+    let (suspects, reproduced) = match code2 {
+        Some(c) if c == 0 || c == 1 || c == 2 => (inflight.clone(), false),
+        _ => (inflight2.clone(), true),
+    };
+    if aborting_props.contains(&prop) && !suspects.is_empty() {
+        let rdir = format!("{}/replays", verif_dir);
+        let _ = std::fs::create_dir_all(&rdir);
+        let path = format!("{}/{}-abort.json", rdir, prop);
+        let rep = serde_json::json!({"property": prop, "key": format!("{}/abort", prop), "what": "the process running the subject was killed (abort / stack overflow / allocation failure) instead of returning", "reproduced_single_threaded": reproduced, "case": {"kind": "abort", "in_flight": suspects}});
+        let _ = std::fs::write(&path, serde_json::to_string_pretty(&rep).unwrap() + "\n");
+        println!("  {}/abort: the subject aborted the process; case(s) in flight: {:?}", prop, suspects);
+        println!("VIOLATION property={} replay={}", prop, path);
+        return 1;
+    }
+    eprintln!("MACHINERY: the check process died (status {:?} / {:?}); this is not a verdict for {}; cases in flight: {:?}", code, code2, prop, suspects);
+    2
 }
